@@ -394,7 +394,19 @@ func ruleMrg1(c *Ctx) []*Ob {
 		o.trivial(c.fname(rp), "stackClean = stackDirtyBase", c.pos(rp.Pos()), "the persisted stack is not cached above its own persisted copy: nothing to require of its producers")
 		return o.list
 	}
-	o.trivial(c.fname(rp), "stackClean = stackDirtyBase", c.instrPos(cachePos), "CachePersisted keeps the persisted stack above the lower level that now contains it: producers must have resolved every Merge")
+	// The cache store may be guarded instead: it executes only behind the false edge of a predicate on the very stack being
+	// cached that reports unresolved merge operations (segment.totOperationMerge) for the stack and, recursively, its children.
+	guardWhy := ""
+	if cachePos != nil {
+		guardWhy = mergeFreeGuard(c, rp, cachePos, fBase)
+	}
+	if guardWhy != "" {
+		o.add(c.fname(rp), "stackClean = stackDirtyBase", c.instrPos(cachePos), true, "the persisted stack is cached above its own persisted copy only "+guardWhy+
+			": an unresolved merge operand is never layered above the lower level that already contains it")
+	} else {
+		o.trivial(c.fname(rp), "stackClean = stackDirtyBase", c.instrPos(cachePos), "CachePersisted keeps the persisted stack above the lower level that now contains it: producers must have resolved every Merge")
+	}
+	cacheGuarded := guardWhy != ""
 	mi := c.Fn("(*segmentStack).mergeInto")
 	fn := c.fname(mi)
 	// raw operation sources
@@ -491,6 +503,10 @@ func ruleMrg1(c *Ctx) []*Ob {
 		}
 		ok := !rawReaches
 		why := "the operation passed was tested against OperationMerge (or rewritten to Set/Del) on every path"
+		if !ok && cacheGuarded {
+			ok = true
+			why = "a raw cursor operation can reach dest.Mutate (the tail optimisation copies entries unresolved), which is harmless because runPersister caches the persisted stack only when it holds no merge operations"
+		}
 		if !ok {
 			why = "a raw cursor operation reaches dest.Mutate without having been tested against OperationMerge: an unresolved merge operand is copied into the merged segment, " +
 				"and once that stack is persisted and kept in stackClean (CachePersisted) the operand is folded a second time over the lower level that already contains it"
@@ -931,4 +947,151 @@ func ruleOrder3(c *Ctx) []*Ob {
 		o.add(fn, "lookup in lowerLevelSnapshot", c.pos(f.Pos()), false, "anchor lost: segmentStack.get no longer falls back to the lower level")
 	}
 	return o.list
+}
+
+// mergeFreeGuard: store (the caching of the persisted stack) executes only behind the "no merge operations" edge of a
+// predicate call whose receiver is the stack loaded from field fBase; returns a description, or "" when there is no such guard.
+func mergeFreeGuard(c *Ctx, f *ssa.Function, store ssa.Instruction, fBase *types.Var) string {
+	fTotMerge := c.FieldOpt("segment", "totOperationMerge")
+	fChildren := c.Field("segmentStack", "childSegStacks")
+	if fTotMerge == nil {
+		return ""
+	}
+	// candidate predicates: bool functions that read totOperationMerge, return true behind a `> 0` / `!= 0` edge of it,
+	// and call themselves on an element of childSegStacks
+	isPred := func(g *ssa.Function) bool {
+		if g == nil || g.Blocks == nil || g.Signature.Results().Len() != 1 {
+			return false
+		}
+		if bt, ok := g.Signature.Results().At(0).Type().Underlying().(*types.Basic); !ok || bt.Kind() != types.Bool {
+			return false
+		}
+		reports := false
+		for _, b := range g.Blocks {
+			iff, ok := b.Instrs[len(b.Instrs)-1].(*ssa.If)
+			if !ok {
+				continue
+			}
+			// find a comparison of totOperationMerge with 0 somewhere in the condition (also behind `!ok || x > 0` phis)
+			var conds []ssa.Value
+			conds = append(conds, iff.Cond)
+			for _, cnd := range conds {
+				bo, isB := cnd.(*ssa.BinOp)
+				if !isB {
+					continue
+				}
+				var other ssa.Value
+				op := bo.Op
+				if fv, _ := loadedField(bo.X); fv == fTotMerge {
+					other = bo.Y
+				} else if fv, _ := loadedField(bo.Y); fv == fTotMerge {
+					other = bo.X
+					op = flipCmp(op)
+				} else {
+					continue
+				}
+				k, isK := constInt(other)
+				if !isK || k != 0 {
+					continue
+				}
+				var posSucc *ssa.BasicBlock
+				switch op {
+				case token.GTR, token.NEQ:
+					posSucc = b.Succs[0]
+				case token.LEQ, token.EQL:
+					posSucc = b.Succs[1]
+				default:
+					continue
+				}
+				// the positive edge must lead to `return true` without another branch
+				blk := posSucc
+				for n := 0; n < 4 && blk != nil; n++ {
+					last := blk.Instrs[len(blk.Instrs)-1]
+					if r, isR := last.(*ssa.Return); isR {
+						if len(r.Results) == 1 {
+							for _, og := range origins(r.Results[0]) {
+								if v, isC := constBool(og); isC && v {
+									reports = true
+								}
+							}
+						}
+						break
+					}
+					if j, isJ := last.(*ssa.Jump); isJ {
+						blk = j.Block().Succs[0]
+						continue
+					}
+					break
+				}
+			}
+		}
+		if !reports {
+			return false
+		}
+		recurses := false
+		for _, k := range callsToFn(g, g) {
+			if len(k.Call.Args) == 0 {
+				continue
+			}
+			for _, og := range origins(k.Call.Args[0]) {
+				if e, isE := og.(*ssa.Extract); isE {
+					if nx, isN := e.Tuple.(*ssa.Next); isN {
+						if rg, isR := nx.Iter.(*ssa.Range); isR {
+							if fv, _ := loadedField(rg.X); fv == fChildren {
+								recurses = true
+							}
+						}
+					}
+				}
+				if lk, isL := og.(*ssa.Lookup); isL {
+					if fv, _ := loadedField(lk.X); fv == fChildren {
+						recurses = true
+					}
+				}
+			}
+		}
+		return recurses
+	}
+	desc := ""
+	guarded := mustPrecede(f, store, neverInstr, func(from, to *ssa.BasicBlock, cond ssa.Value, onTrue bool) bool {
+		neg := false
+		for {
+			u, ok := cond.(*ssa.UnOp)
+			if !ok || u.Op != token.NOT {
+				break
+			}
+			neg = !neg
+			cond = u.X
+		}
+		call, ok := cond.(*ssa.Call)
+		if !ok {
+			return false
+		}
+		g := call.Call.StaticCallee()
+		if !isPred(g) || len(call.Call.Args) == 0 {
+			return false
+		}
+		onBase := false
+		for _, og := range origins(call.Call.Args[0]) {
+			if fv, _ := loadedField(og); fv == fBase {
+				onBase = true
+			}
+		}
+		if !onBase {
+			return false
+		}
+		val := onTrue
+		if neg {
+			val = !val
+		}
+		if !val { // the predicate reported "no merge operations" on this edge
+			desc = "behind the false edge of " + c.fname(g) + "() on that stack (it reports segment.totOperationMerge > 0 for the stack and its child stacks)"
+			return true
+		}
+		return false
+	})
+	if guarded && desc != "" {
+		return desc
+	}
+	return ""
 }
